@@ -100,8 +100,11 @@ func (svr *Server) handshakeDataChannel(wsc websocket.Conn) {
 	}
 	// 数据通道只能加入同一用户、同一路径的控制通道：
 	// 通道号是可猜的，否则任何能连上自己路径的用户都可以把别人的媒体流接到自己的数据通道上
-	if session != nil && (session.conn.Path() != wsc.Path() || session.conn.Username() != wsc.Username()) {
-		session = nil
+	if session != nil {
+		ctrl := session.conn // 控制通道关闭时会被置空
+		if ctrl == nil || ctrl.Path() != wsc.Path() || ctrl.Username() != wsc.Username() {
+			session = nil
+		}
 	}
 	if session == nil {
 		code = 404
